@@ -423,6 +423,9 @@ def observe_pair(name, cfg, prop, script, zmodel, attempts=60):
         pass
 
     for a in range(attempts):
+        for st in steps:
+            if st.get("op") == "tick_race":
+                st["spin"] = (a % 60) * 4000   # the tick handler starts with some latency: vary how long the client waits after the barrier
         out = replay.run({"config": {"keep_processes": True}, "threads": 4, "models": [model], "steps": steps, "known_nids": sorted(replay.node_ids(model))})
         if "error" in out:
             continue
